@@ -154,6 +154,16 @@ func runC07(t *testing.T, c *choice.Stream, r *Result, opt RunOpt) {
 			return
 		}
 		stream = buf.Buf
+		if c.Bool("server.encoder", 1, 3) {
+			// the same kind of block as a server writes it: the independent encoder,
+			// with the server's spelling of the types (Decimal(P, S), time zones)
+			var w refproto.W
+			if err := refproto.EncodeBlock(&w, rev, DrawBlock(c, cols, rows)); err != nil {
+				panic(err)
+			}
+			stream = w.B
+			desc["encoder"] = "reference"
+		}
 		compressed := false
 		if m := c.Draw("compress", 5); m > 0 {
 			cm := []compress.Method{compress.None, compress.LZ4, compress.LZ4HC, compress.ZSTD}[m-1]
